@@ -9,7 +9,7 @@
               and run "/bin/sh -c <pieces joined by a blank>"; without it the pieces ARE the argv (execve).
    [sf_*]   : StreamFlow.  ANCHORS:
      streamflow.cwl.command._get_value_for_command            -> sf_value_for_command
-     streamflow.cwl.command._get_value_repr                   -> repr   (ScalarFloat branch not modelled)
+     streamflow.cwl.command._get_value_repr                   -> repr / dec_repr (ScalarFloat branch on the job's spelling)
      streamflow.cwl.command._escape_value                     -> sf_escape
      streamflow.cwl.command.CWLCommandTokenProcessor.bind     -> sf_bind
      streamflow.cwl.command._merge_tokens + the sort in
@@ -33,14 +33,50 @@ Definition sapp := String.append.
 Infix "^^" := String.append (at level 60, right associativity).
 
 (* ---------------------------------------------------------------- values *)
-Inductive sval := VNull | VBool (b : bool) | VInt (z : Z) | VStr (s : string).
+(* VDec: a float as the input object SPELLS it (JSON number with a fraction and/or an exponent): sign, integer digits,
+   fraction digits, exponent.  Both runners load the job with ruamel's round-trip loader, which keeps the spelling
+   (ScalarFloat), and render it through decimal.Decimal. *)
+Inductive sval := VNull | VBool (b : bool) | VInt (z : Z) | VStr (s : string)
+                | VDec (neg : bool) (ip fp : string) (ex : option Z).
 Inductive value := Sc (v : sval) | Arr (l : list sval).
 
 (* str(int) *)
 Definition zstr (z : Z) : string :=
   match z with Zneg p => "-" ^^ dec (Npos p) | _ => dec (Z.to_N z) end.
 
-(* _get_value_repr / cwltool Builder.tostr on the modelled scalars: str(v) *)
+(* ---- the ScalarFloat branch of _get_value_repr (= cwltool Builder.tostr):
+        dec_value = Decimal(rep.represent_scalar_float(value).value)
+        return str(dec_value.quantize(1)) if "E" in str(dec_value) else str(dec_value)
+   on the literal: Decimal._int = the digits without leading zeros, Decimal._exp = exponent - #fraction digits;
+   Decimal.__str__ is positional iff _exp <= 0 and _exp + len(_int) > -6, otherwise scientific ("E"), and then
+   quantize(1) gives the integer value (every such literal with _exp < 0 is below 1e-6 and rounds to 0).
+   Not modelled: spellings of more than 15 significant digits (ruamel goes through a binary float), huge exponents. *)
+Fixpoint strip0 (s : string) : string :=
+  match s with
+  | String c r => if Ascii.eqb c "0"%char then strip0 r else s
+  | EmptyString => EmptyString
+  end.
+Fixpoint zeros (n : nat) : string := match n with O => "" | S k => String "0"%char (zeros k) end.
+Fixpoint stake (n : nat) (s : string) : string :=
+  match n, s with S k, String c r => String c (stake k r) | _, _ => "" end.
+Fixpoint sdrop (n : nat) (s : string) : string :=
+  match n, s with S k, String _ r => sdrop k r | _, _ => s end.
+Definition dec_int (ip fp : string) : string :=
+  match strip0 (ip ^^ fp) with EmptyString => "0" | d => d end.
+Definition dec_repr (neg : bool) (ip fp : string) (ex : option Z) : string :=
+  let digits := dec_int ip fp in
+  let e := ((match ex with Some x => x | None => 0 end) - Z.of_nat (String.length fp))%Z in
+  let left := (e + Z.of_nat (String.length digits))%Z in
+  let body :=
+    if Z.ltb 0 e then (if String.eqb digits "0" then "0" else digits ^^ zeros (Z.to_nat e))     (* quantize(1) *)
+    else if Z.ltb (-6) left then
+      (if Z.eqb e 0 then digits
+       else if Z.leb left 0 then "0." ^^ zeros (Z.to_nat (- left)) ^^ digits
+       else stake (Z.to_nat left) digits ^^ "." ^^ sdrop (Z.to_nat left) digits)
+    else "0" in                                                                                (* quantize(1) of < 1e-6 *)
+  if neg then "-" ^^ body else body.
+
+(* _get_value_repr / cwltool Builder.tostr on the modelled scalars: str(v), floats through Decimal *)
 Definition repr (v : sval) : string :=
   match v with
   | VNull => "None"
@@ -48,6 +84,7 @@ Definition repr (v : sval) : string :=
   | VBool false => "False"
   | VInt z => zstr z
   | VStr s => s
+  | VDec n i f e => dec_repr n i f e
   end.
 
 (* ---------------------------------------------------------------- tools *)
